@@ -474,9 +474,10 @@ def run_pyramid(ctx: Ctx) -> None:
                             "unnormalised by torch's rule for the flag handed over; interpolate's index map for its flag); every level "
                             "carries one grid per image whose shape matches the data")
     from .t11_expv import identity_coords  # noqa: F401  (same normalisation conventions)
-    for D, size in ((2, (5, 4)),):
+    # (10, 18) with spacing 2: the resampled grid has the same extent, already a size of the form 2^L k + 1, but other corner samples
+    for D, size in ((2, (5, 4)), (2, (10, 18))):
         for ac in (True, False):
-            for hfac in (None, Fraction(1, 2), Fraction(2, 3), 2):
+            for hfac in ((None, Fraction(1, 2), Fraction(2, 3), 2) if size == (5, 4) else (2,)):
                 def th(D=D, size=size, ac=ac, hfac=hfac):
                     reset_relations()
                     facts = fresh_facts()
@@ -532,4 +533,5 @@ def run_pyramid(ctx: Ctx) -> None:
                                                    f"index {src}, its grid places it at {want}")
                         return True, ""
                     return False, "no resampling call seen for the finest level"
-                _guard(ctx, "T13.pyramid", f"D={D}:ac={ac}:h={hfac}", fP, f"pyramid spacing={hfac} D={D} align_corners={ac}", th)
+                _guard(ctx, "T13.pyramid", f"D={D}:size={size}:ac={ac}:h={hfac}" if size != (5, 4) else f"D={D}:ac={ac}:h={hfac}", fP,
+                       f"pyramid spacing={hfac} D={D} align_corners={ac}" + ("" if size == (5, 4) else f" size={size}"), th)
